@@ -384,6 +384,10 @@ func getInbox(t vocab.Type) (u *url.URL, err error) {
 		return
 	}
 	inbox := ib.GetActivityStreamsInbox()
+	if inbox == nil {
+		err = fmt.Errorf("actor has no inbox")
+		return
+	}
 	return ToId(inbox)
 }
 
